@@ -735,6 +735,51 @@ func (c *streamCtx) dirC07() []genCase {
 			out = append(out, single(s, fmt.Sprintf("C07 %s want=%d", v, want)))
 		}
 	}
+	// the exact remainder after several removals: 2-3 force-tainted empty nodes are terminated in the same scan as a
+	// scale-up with room below the maximum, 0-2 tainted nodes are reused first; the request must sit on the desired size
+	// lowered by EVERY accepted termination.  Variants: the last termination refused (the accepted ones still count),
+	// one untaint write failing (not counted), a fleet request.
+	for F := 2; F <= 3; F++ {
+		for T := 0; T <= 2; T++ {
+			for _, want := range []int{1, 3, 4} {
+				for _, v := range []string{"plain", "last-termination-fails", "update-fails", "fleet"} {
+					if v == "update-fails" && T == 0 {
+						continue
+					}
+					if !c.thorough && v != "plain" && (F+T+want)%2 == 0 {
+						continue
+					}
+					s := newSpec(base, nsOffsets[(F+T+want)%3])
+					b := s.group("g1")
+					b.o.MaxNodes = 20
+					U := 2
+					for i := 0; i < U; i++ {
+						b.node(i, int64(7200+i))
+					}
+					for k := 0; k < T; k++ {
+						b.node(U+k, int64(5000+100*k), escAge(base, []int64{10, 400}[k%2]))
+					}
+					for k := 0; k < F; k++ {
+						b.node(U+T+k, int64(8000+k), forced())
+					}
+					switch v {
+					case "last-termination-fails":
+						b.aws.TermInAsgFail = []string{b.instanceOf(U + T + F - 1)}
+					case "update-fails":
+						b.k8s.UpdateFail = []string{b.nodeName(U)}
+					case "fleet":
+						// refused by the fleet API before any wait: the request itself is journaled
+						b.template = "lt-g1"
+						b.aws.FleetInstances, b.aws.FleetErrors = nil, 2
+					}
+					b.util(int64(70+35*want), 0, true, false)
+					b.asgMax = 20
+					b.done()
+					out = append(out, single(s, fmt.Sprintf("C07 exact remainder: forced=%d tainted=%d want=%d %s", F, T, want, v)))
+				}
+			}
+		}
+	}
 	return out
 }
 
